@@ -1020,6 +1020,343 @@ def probe_autofit(ctx, rng, n_cases):
                      dict(case, geo_scale=gsc[gname], fits=summ, field=hexl(r["f"]), field_radian=hexl(r0["f"])), "probe:autofit-fields")
 
 
+# ---------------------------------------------------------------------------------------------- holders / histories
+def fresh_model(m):
+    """a new CovModel built from the PRESENT public parameter values of m"""
+    kw = dict(latlon=m.latlon, temporal=m.temporal, geo_scale=m.geo_scale, var=m.var, len_scale=m.len_scale, nugget=m.nugget,
+              anis=[float(a) for a in m.anis], angles=[float(a) for a in m.angles])
+    if not m.latlon:
+        kw["dim"] = m.dim
+    for opt in m.opt_arg:
+        kw[opt] = getattr(m, opt)
+    if not kw["anis"]:
+        kw.pop("anis")
+    if not kw["angles"]:
+        kw.pop("angles")
+    return type(m)(**kw)
+
+
+def latlon_cfg(rng, temporal, classes=None):
+    cfg = gen_cfg(rng, force=(True, temporal))
+    cfg["ls"] = [cfg["ls"][0]]
+    cfg["anis"] = [1.0, 1.0, float(10 ** rng.uniform(-0.5, 0.5))] if temporal else []
+    cfg["angles"] = []
+    cfg["sdim"] = None
+    if classes is not None:
+        cfg["cls"] = int(rng.choice(classes))
+    return cfg
+
+
+def other_unit_cfg(rng, cfg):
+    """a configuration differing from cfg only in geo_scale (same len_scale NUMBER: 'km -> miles'), or with the length rescaled too,
+    and (temporal) possibly in the time ratio"""
+    gsc = geo_scales()
+    c = dict(cfg)
+    names = [n for n in GEO_NAMES if n != cfg["gname"]] + ["miles"]
+    nm = names[int(rng.integers(len(names)))]
+    g = 3958.8 if nm == "miles" else gsc[nm]
+    u = rng.random()
+    if u < 0.5:
+        c["ls"] = [cfg["ls"][0]]
+    else:
+        c["ls"] = [cfg["ls"][0] * g / cfg["geo"]]
+    c["geo"], c["gname"] = g, nm if nm != "miles" else "3.7"
+    if cfg["temporal"] and rng.random() < 0.5:
+        c["anis"] = [1.0, 1.0, float(10 ** rng.uniform(-0.5, 0.5))]
+    else:
+        c["anis"] = list(cfg["anis"])
+    return c
+
+
+def gen_st_points(rng, n, temporal, scale_t=1.0):
+    lat, lon = sep_latlon(rng, n, 5.0)
+    if rng.random() < 0.3:
+        lat[0] = 90.0
+        lon[1 % n] = 180.0
+    rows = [lat, lon] + ([rng.uniform(0, 2, size=n) * scale_t] if temporal else [])
+    return np.vstack(rows)
+
+
+def krige_tol(kr, tgt, val):
+    cnd = float(np.linalg.cond(raw_krige_system(kr, tgt)[0]))
+    return max(RTOL_PIPE, 1e-12 * cnd) * (float(np.abs(val).max()) + 1.0), cnd
+
+
+def corr_holder(ctx, drv, rng, n_cases):
+    """operation histories on a Krige object (model replacement by one differing only in geo_scale / length / time ratio, in-place
+    changes of the held model, set_condition(), set_condition(new data)); after EVERY operation the cached isometrized conditioning
+    positions and the model state are compared with the holder model (which predicts staleness after an in-place change too), and
+    after every refreshing operation the kriging result is compared with a FRESH object built from the present values"""
+    import gstools as gs
+    for it in range(n_cases):
+        temporal = bool(it % 2)
+        cfg0 = latlon_cfg(rng, temporal)
+        cfg0["nugget"] = float(rng.choice([0.0, 0.05]))
+        m = make_model(cfg0)
+        nc = int(rng.integers(3, 8))
+        cond = gen_st_points(rng, nc, temporal, cfg0["ls"][0])
+        val = rng.normal(size=nc)
+        simple = bool(rng.random() < 0.5)
+        mk = (lambda mod, c, v: gs.krige.Simple(mod, c, v, mean=0.25)) if simple else (lambda mod, c, v: gs.krige.Ordinary(mod, c, v))
+        kr = mk(m, cond, val)
+        base = margs(cfg0) + [np.ascontiguousarray(cond.T)]
+        ops, hist = [], []
+        cur = dict(cfg0)
+        key = cfg_key(cfg0)
+        for step in range(int(rng.integers(3, 7))):
+            u = rng.random()
+            refreshing = True
+            try:
+                if u < 0.35:
+                    c1 = other_unit_cfg(rng, cur)
+                    kr.model = make_model(c1)
+                    ops += [("z", 0)] + margs(c1)
+                    hist.append(["model = (geo_scale %r, len_scale %r, anis %r)" % (c1["geo"], c1["ls"][0], c1["anis"])])
+                    cur = c1
+                    opk = "replace-model"
+                elif u < 0.7:
+                    if temporal and rng.random() < 0.6:
+                        v = [1.0, 1.0, float(10 ** rng.uniform(-0.5, 0.5))]
+                        kr.model.anis = v
+                        ops += [("z", 1), ("z", 1), np.array(v)]
+                        hist.append(["model.anis = %r" % (v,)])
+                    else:
+                        v = [float(kr.model.len_scale * rng.uniform(0.5, 2.0))]
+                        kr.model.len_scale = v[0]
+                        ops += [("z", 1), ("z", 0), np.array(v)]
+                        hist.append(["model.len_scale = %r" % (v[0],)])
+                    refreshing = False
+                    opk = "in-place"
+                    if rng.random() < 0.8:
+                        _check_holder(ctx, drv, kr, base, ops, hist, cfg0, key, opk)
+                        kr.set_condition()
+                        ops += [("z", 2)]
+                        hist.append(["set_condition()"])
+                        refreshing = True
+                        opk = "in-place+set_condition()"
+                else:
+                    nc = int(rng.integers(3, 8))
+                    cond = gen_st_points(rng, nc, temporal, cfg0["ls"][0])
+                    val = rng.normal(size=nc)
+                    kr.set_condition(cond, val)
+                    ops += [("z", 3), np.ascontiguousarray(cond.T)]
+                    hist.append(["set_condition(new cond_pos, cond_val)", hexl(cond), hexl(val)])
+                    opk = "new-data"
+            except Exception as e:
+                viol(ctx, "probe: Krige history raises", "operation history on a Krige object raised %r" % (e,),
+                     dict(config=cfg_json(cfg0), history=hist), "probe:exception")
+                break
+            ctx.count(("holder", key, opk, simple), hist=dict(op="holder history:" + opk, config=key))
+            if not _check_holder(ctx, drv, kr, base, ops, hist, cfg0, key, opk):
+                break
+            if refreshing:
+                tgt = gen_st_points(rng, 4, temporal, cfg0["ls"][0])
+                try:
+                    f1, v1 = kr(tgt)
+                    fr = mk(fresh_model(kr.model), cond, val)
+                    f2, v2 = fr(tgt)
+                    tol, cnd = krige_tol(fr, tgt, val)
+                except Exception as e:
+                    viol(ctx, "probe: Krige history raises", "evaluation after an operation history raised %r" % (e,),
+                         dict(config=cfg_json(cfg0), history=hist), "probe:exception")
+                    break
+                if not (np.abs(f1 - f2).max() <= tol and np.abs(v1 - v2).max() <= tol * (kr.model.var + kr.model.nugget)):
+                    viol(ctx, "probe: Krige after a history vs a fresh Krige",
+                         "kriging after model replacement / in-place change + set_condition() differs from a fresh object built from the "
+                         "present model and data (last operation: %s)" % opk,
+                         dict(config=cfg_json(cfg0), simple=simple, cond0=hexl(base[8]), history=hist, tgt=hexl(tgt), field=hexl(f1), fresh=hexl(f2),
+                              var=hexl(v1), fresh_var=hexl(v2), cond_number=cnd), "probe:krige-history")
+                    break
+
+
+def _check_holder(ctx, drv, kr, base, ops, hist, cfg0, key, opk):
+    got = drv.call("holder", *(base + ops))
+    st = state_of(kr.model)
+    kp = np.asarray(kr._krige_pos).T
+    ok = got is not None and state_agree(st, got[:7]) and agree(got[7], kp, np.maximum(np.abs(kp), st[1]))
+    if not ok:
+        # is the PROPERTY violated on this history?  (cache of a refreshed holder != isometrize of the present model)
+        fresh_kp = np.asarray(fresh_model(kr.model).isometrize(kr.cond_pos)).T
+        stale = not agree(fresh_kp, kp, np.maximum(np.abs(kp), st[1]))
+        viol(ctx, "correspondence: Krige holder history (cached conditioning positions / model state)",
+             "after the history the cached isometrized conditioning positions differ from the holder model" +
+             ("; they are not those of the present model and data" if stale and not opk == "in-place" else ""),
+             dict(config=cfg_json(cfg0), cond0=hexl(base[8]), history=hist, last=opk, impl_krige_pos=hexl(kp),
+                  model_krige_pos=None if got is None else hexl(got[7]), present_model=[st[0], st[1], st[2], list(st[3])]),
+             "corr:holder" if not (stale and opk != "in-place") else "probe:holder-stale-cache", no_input=not (stale and opk != "in-place"))
+    return ok
+
+
+def probe_histories(ctx, rng, n_cases):
+    """SRF and CondSRF objects: model replacement (differing only in geo_scale / length / time ratio), in-place changes (+ the documented
+    set_condition() refresh for the kriging part), calls on new / stored positions with new seeds; every result is compared with a
+    fresh object built from the present parameter values"""
+    import gstools as gs
+    for it in range(n_cases):
+        temporal = bool(it % 2)
+        which = ["SRF", "CondSRF"][(it // 2) % 2]
+        cfg0 = latlon_cfg(rng, temporal, classes=[0, 1])      # Gaussian / Exponential: inversion sampling
+        cfg0["nugget"] = 0.0
+        m = make_model(cfg0)
+        nc = int(rng.integers(3, 7))
+        cond = gen_st_points(rng, nc, temporal, cfg0["ls"][0])
+        val = rng.normal(size=nc)
+        seed = int(rng.integers(1, 10 ** 6))
+        if which == "SRF":
+            obj = gs.SRF(m, seed=seed, mode_no=32)
+        else:
+            obj = gs.CondSRF(gs.krige.Ordinary(m, cond, val), seed=seed, mode_no=32)
+        cur = dict(cfg0)
+        hist = []
+        key = cfg_key(cfg0)
+        called = False
+        tgt = None
+        for step in range(int(rng.integers(3, 7))):
+            u = rng.random()
+            try:
+                if u < 0.3:
+                    c1 = other_unit_cfg(rng, cur)
+                    c1["nugget"] = 0.0
+                    obj.model = make_model(c1)
+                    cur = c1
+                    hist.append(["model = (geo_scale %r, len_scale %r, anis %r)" % (c1["geo"], c1["ls"][0], c1["anis"])])
+                    opk = "replace-model"
+                elif u < 0.55:
+                    if temporal and rng.random() < 0.6:
+                        v = [1.0, 1.0, float(10 ** rng.uniform(-0.5, 0.5))]
+                        obj.model.anis = v
+                        hist.append(["model.anis = %r" % (v,)])
+                    else:
+                        v = float(obj.model.len_scale * rng.uniform(0.5, 2.0))
+                        obj.model.len_scale = v
+                        hist.append(["model.len_scale = %r" % (v,)])
+                    if which == "CondSRF":
+                        obj.krige.set_condition()
+                        hist.append(["krige.set_condition()"])
+                    opk = "in-place"
+                else:
+                    seed = int(rng.integers(1, 10 ** 6))
+                    if called and rng.random() < 0.3:
+                        res = obj(seed=seed)
+                        hist.append(["call(stored positions, seed=%d)" % seed])
+                    else:
+                        tgt = gen_st_points(rng, 4, temporal, cfg0["ls"][0])
+                        res = obj(tgt, seed=seed)
+                        hist.append(["call(new positions, seed=%d)" % seed, hexl(tgt)])
+                    called = True
+                    opk = "call"
+                    fm = fresh_model(obj.model)
+                    if which == "SRF":
+                        ref = gs.SRF(fm, seed=seed, mode_no=32)(tgt)
+                        tol = 1e-8 * np.sqrt(fm.var) * 8
+                    else:
+                        kf = gs.krige.Ordinary(fm, cond, val)
+                        ref = gs.CondSRF(kf, seed=seed, mode_no=32)(tgt)
+                        tol, _ = krige_tol(kf, tgt, val)
+                        tol = max(tol, 1e-8) * 8 * (1 + np.sqrt(fm.var))
+                    if not np.abs(np.asarray(res) - np.asarray(ref)).max() <= tol:
+                        viol(ctx, "probe: %s after a history vs a fresh %s" % (which, which),
+                             "field after model replacement / in-place change differs from a fresh object built from the present model",
+                             dict(config=cfg_json(cfg0), object=which, cond=hexl(cond), val=hexl(val), history=hist, field=hexl(res), fresh=hexl(ref)),
+                             "probe:%s-history" % which.lower())
+                        break
+                ctx.count(("history", which, key, opk), hist=dict(probe="%s history:%s" % (which, opk), config=key))
+            except Exception as e:
+                viol(ctx, "probe: history raises", "operation history on a %s object raised %r" % (which, e),
+                     dict(config=cfg_json(cfg0), object=which, history=hist), "probe:exception")
+                break
+
+
+def probe_units(ctx, drv, rng, n_cases):
+    """every consumer of geo_scale that is not covered elsewhere, in all units, against the model: vario/cor/cov_yadrenko; standard_bins with
+    each combination of bin_no / max_dist given or not (a given max_dist is in the unit of geo_scale); vario_estimate with the same options
+    passed through (bin centres and bin membership in the unit of geo_scale)"""
+    import gstools as gs
+    gsc = dict(geo_scales(), miles=3958.8)
+    names = list(gsc)
+    for it in range(n_cases):
+        gname = names[it % len(names)]
+        g = gsc[gname]
+        n = int(rng.integers(6, 25))
+        lat, lon = gen_latlon(rng, n, specials=0.1)
+        pts = np.ascontiguousarray(np.vstack([lat, lon]).T)
+        # yadrenko family
+        m = model_classes()[it % 5](latlon=True, geo_scale=g, len_scale=float(g * rng.uniform(0.2, 1)), var=float(rng.uniform(0.5, 2)), nugget=0.1)
+        z = rng.uniform(0, math.pi * g, size=5)
+        ch = 2 * g * np.sin(z / (2 * g))
+        ctx.count(("yadrenko", gname, type(m).__name__), hist=dict(probe="yadrenko family", geo_scale=gname))
+        if not (agree(m.cov_yadrenko(z), m.covariance(ch), m.var, 1e-12) and agree(m.vario_yadrenko(z), m.variogram(ch), m.var + m.nugget, 1e-12)
+                and agree(m.cor_yadrenko(z), m.correlation(ch), 1.0, 1e-12)):
+            viol(ctx, "probe: vario/cov/cor_yadrenko", "a yadrenko function is not the isotropic function of the chord 2 g sin(zeta / 2g)",
+                 dict(model=type(m).__name__, geo_scale=g, zeta=hexl(z)), "probe:yadrenko-family")
+        # standard_bins option matrix
+        rule, tol_b = rule_max_dist(lat, lon, g)
+        sturges = int(np.ceil(2 * np.log2(n) + 1))
+        for has_no in (False, True):
+            for has_md in (False, True):
+                bn = int(rng.integers(2, 12)) if has_no else None
+                md = float(g * rng.uniform(0.05, 1.5)) if has_md else None
+                ctx.count(("standard_bins-options", gname, has_no, has_md), hist=dict(probe="standard_bins options", geo_scale=gname))
+                case = dict(geo_scale=g, lat_dec=[float(v) for v in lat], lon_dec=[float(v) for v in lon], bin_no=bn, max_dist=md)
+                try:
+                    e = gs.standard_bins((lat, lon), latlon=True, geo_scale=g, bin_no=bn, max_dist=md)
+                    last_m = drv.call("latlon_bins_last_edge", g, pts, has_md, md if has_md else 0.0) if drv is not None else None
+                except Exception as ex:
+                    viol(ctx, "probe: standard_bins raises", "standard_bins raised %r" % (ex,), case, "probe:exception")
+                    continue
+                exp_last = md if has_md else rule
+                exp_n = bn if has_no else sturges
+                t = 1e-15 if has_md else tol_b
+                if not (len(e) == exp_n + 1 and e[0] == 0.0 and abs(e[-1] - exp_last) <= t * max(math.pi * g, exp_last)
+                        and agree(e, np.linspace(0, e[-1], exp_n + 1), max(e[-1], 1e-300), 1e-13)):
+                    viol(ctx, "probe: standard_bins(latlon) options bin_no / max_dist",
+                         "lat-lon bins with bin_no %s / max_dist %s: last edge or count is not the documented one (a given max_dist is in the "
+                         "unit of geo_scale)" % ("given" if has_no else "default", "given" if has_md else "default"),
+                         dict(case, edges=hexl(e), last_edge=float(e[-1]), expected_last_edge=exp_last, expected_bins=exp_n), "probe:standard-bins-options")
+                if last_m is not None and not abs(last_m - e[-1]) <= t * max(math.pi * g, exp_last):
+                    viol(ctx, "correspondence: standard_bins(latlon) last edge", "model and standard_bins differ",
+                         dict(case, impl=float(e[-1]), model=float(last_m)), "corr:standard_bins-options", no_input=True)
+                # the same options through vario_estimate: bin centres in the unit of geo_scale, membership by great-circle distance
+                fld = rng.normal(size=n)
+                kw = {}
+                if has_no:
+                    kw["bin_no"] = bn
+                if has_md:
+                    kw["max_dist"] = md
+                try:
+                    bc, gam, cnt = gs.vario_estimate((lat, lon), fld, latlon=True, geo_scale=g, return_counts=True, **kw)
+                except Exception as ex:
+                    viol(ctx, "probe: vario_estimate raises", "vario_estimate raised %r" % (ex,), case, "probe:exception")
+                    continue
+                edges = np.linspace(0, exp_last, exp_n + 1)
+                exp = expected_vario(lat, lon, fld, edges, g)
+                if not agree(bc, (edges[:-1] + edges[1:]) / 2, max(exp_last, 1e-300), max(t, 1e-13) * 4):
+                    viol(ctx, "probe: vario_estimate(latlon) default bins", "bin centres of vario_estimate(latlon, geo_scale, %r) are not those of the "
+                         "documented bins in the unit of geo_scale" % (kw,), dict(case, field=hexl(fld), bin_center=hexl(bc), expected=hexl((edges[:-1] + edges[1:]) / 2)),
+                         "probe:vario-std-bins-centres")
+                elif exp is not None and not exp["nan"].any() and not np.array_equal(np.asarray(cnt, dtype=int), exp["cnt"]):
+                    viol(ctx, "probe: vario_estimate(latlon) default bins", "bin membership of vario_estimate(latlon, geo_scale, %r) differs from binning the "
+                         "model's great-circle distances" % (kw,), dict(case, field=hexl(fld), counts=[int(c) for c in cnt], expected=[int(c) for c in exp["cnt"]]),
+                         "probe:vario-std-bins-counts")
+
+
+def expected_vario(lat, lon, fld, edges, g):
+    """bin the MODEL's great-circle distances (chord of the isometrized points -> great circle); None when a pair is too close to an edge"""
+    import gstools as gs
+    m = gs.Exponential(latlon=True, geo_scale=g, len_scale=g)
+    iso = m.isometrize(np.vstack([lat, lon]))
+    ch = np.linalg.norm(iso[:, :, None] - iso[:, None, :], axis=0)
+    gc = gs.tools.geometric.chordal_to_great_circle(ch, g)
+    iu = np.triu_indices(len(lat), 1)
+    d = gc[iu]
+    inner = edges[1:] if edges[0] <= 0 else edges
+    if np.min(np.abs(d[:, None] - inner[None, :])) <= 1e-6 * g:
+        return None
+    cnt = np.array([int(((d >= edges[b]) & (d < edges[b + 1])).sum()) for b in range(len(edges) - 1)])
+    nanp = np.array([kernel_hav_arg(lat[a], lon[a], lat[b], lon[b]) > 1.0 for a, b in zip(*iu)])
+    return dict(cnt=cnt, nan=nanp)
+
+
 # ---------------------------------------------------------------------------------------------- run
 def run(ctx):
     rng = C.Rng(ctx.seed, "C13")
@@ -1069,7 +1406,8 @@ def run(ctx):
     for f in ("latlon2pos", "pos2latlon", "set_angles", "set_anis", "rotation_planes",
               "givens_rotation", "matrix_rotate/derotate/isometrize/anisometrize", "set_len_anis", "set_model_angles",
               "CovModel.__init__/set_dim (lat-lon, temporal part)", "CovModel len_scale/anis/angles setters", "CovModel.isometrize/anisometrize",
-              "cov_yadrenko", "Krige._get_krige_mat/_get_krige_vecs (covariance system)", "standard_bins(latlon) max_dist", "fit._check_vario lag conversion"):
+              "cov_yadrenko", "Krige._get_krige_mat/_get_krige_vecs (covariance system)",
+              "Krige holder: model setter / set_condition() / set_condition(new data) and the cached _krige_pos (operation histories)", "standard_bins(latlon) max_dist", "fit._check_vario lag conversion"):
         ctx.tie[f] = "hand model + correspondence"
     # 2. theorems
     proofs_ok = (not tie_broken) and ctx.proofs("props/C13.v")
@@ -1099,11 +1437,15 @@ def run(ctx):
         # 5. probes
         stage("probe_geometry", probe_geometry, ctx, rng, 2000 if thorough else 160)
         stage("probe_vario", probe_vario, ctx, rng, 2000 if thorough else 160)
-        stage("probe_pipelines", probe_pipelines, ctx, rng, 600 if thorough else 40)
+        stage("probe_pipelines", probe_pipelines, ctx, rng, 400 if thorough else 40)
         stage("probe_time_axis", probe_time_axis, ctx, rng, 2000 if thorough else 160)
         stage("probe_fit", probe_fit, ctx, rng, 80 if thorough else 8)
         stage("probe_bins", probe_bins, ctx, rng, 200 if thorough else 25)
-        stage("probe_autofit", probe_autofit, ctx, rng, 40 if thorough else 4)
+        stage("probe_autofit", probe_autofit, ctx, rng, 20 if thorough else 4)
+        if drv is not None:
+            stage("corr_holder", corr_holder, ctx, drv, rng, 300 if thorough else 40)
+        stage("probe_histories", probe_histories, ctx, rng, 300 if thorough else 40)
+        stage("probe_units", probe_units, ctx, drv, rng, 200 if thorough else 30)
         ctx.notes.append("stage seconds: %s" % json.dumps(timing))
         C.log("[C13] stage seconds: %s" % json.dumps(timing))
     finally:
